@@ -404,7 +404,10 @@ impl<T: CaseT> Leg for RandomLeg<T> {
     fn run(&self, env: &RunEnv, leg_index: u64) -> LegOutcome {
         let t0 = Instant::now();
         let min_fail = AtomicU64::new(u64::MAX);
-        let per_worker = (self.cases + WORKERS - 1) / WORKERS;
+        // VERIF_CASES_DIV is a debugging knob (coverage-instrumented builds are slow); the registered
+        // commands never set it
+        let div = std::env::var("VERIF_CASES_DIV").ok().and_then(|v| v.parse::<u64>().ok()).filter(|d| *d > 0).unwrap_or(1);
+        let per_worker = (self.cases / div + WORKERS - 1) / WORKERS;
         let results: Vec<(Stats, Option<(u64, Failure)>)> = std::thread::scope(|sc| {
             let mut hs = Vec::new();
             for w in 0..WORKERS {
